@@ -33,6 +33,8 @@ THEOREMS = ["C04_safe_subsample", "C04_safe", "C04_all_written", "C04_garbage_in
             "C04_quota", "C04_sampled_indices", "C04_prefix_rows", "C04_values", "C04_positions", "C04_counts",
             "C04_sample_nonempty", "C04_entry_spec", "C04_outside_irrelevant", "C04_entry_indices", "C04_finite",
             "C04_prefix_refuted", "C04_prefix_unsafe", "C04_check_sound", "C04_model_ok", "C04_outside_hyp_sound"]
+# over R (Flocq): may use the standard-library Reals axioms; every other theorem must be closed under the global context
+FLOAT_THEOREMS = ["C04_float_product_exact", "C04_float_quotient_floor", "C04_float_final_space_size", "C04_float_quota"]
 HEADER = ("From Coq Require Import List ZArith QArith.\nFrom Outrank Require Import MI.Subsample.\n"
           "Import ListNotations.\nOpen Scope Z_scope.")
 EPS32 = 2.0 ** -24
@@ -447,7 +449,14 @@ def check(run, replay):
     run.oblige("build:model MI/Subsample.vo", ok, "" if ok else log[-1500:])
     if not ok:
         raise vlib.Broken("build:MI/Subsample.vo", log)
-    vlib.standard_proof_phase(run, ["Props/C04.vo"], "Outrank.Props.C04", THEOREMS)
+    if vlib.standard_proof_phase(run, ["Props/C04.vo"], "Outrank.Props.C04", THEOREMS + FLOAT_THEOREMS,
+                                 allowed=vlib.STD_REAL_AXIOMS):
+        ax = run.cov.get("axioms_per_theorem", {})
+        open_ = {t: ax[t] for t in THEOREMS if ax.get(t)}
+        run.oblige("axiom-free: the %d theorems not over R are closed under the global context" % len(THEOREMS),
+                   not open_, json.dumps(open_))
+        if open_:
+            run.violation("broken-obligation", "axioms:" + ",".join(sorted(open_)), found_input=False, extra=open_)
 
     if replay is not None:
         cases = [replay["case"]]
@@ -525,7 +534,9 @@ def check(run, replay):
     run.samples = [{k: v for k, v in c.items()} for c in cases if len(c["X"]) <= 16][:4]
     run.assumptions += [
         "codes are >= 0 and both vectors have the same length >= 1 (precondition of the numba code, as in C01)",
-        "0 < r < 1 and n < 2^29, so that int(float32 * int64) and int(a / b) in the code are exact (remark in MI/Subsample.v)",
+        "0 < r < 1 and n < 2^29: int(float32 * int64) and int(a / b) then equal the model's exact floors — proved with Flocq "
+        "(C04_float_product_exact, C04_float_quotient_floor, C04_float_quota); what remains trusted is only that numba evaluates "
+        "float32 * int64 as a binary64 multiplication and int / int as a binary64 division, then truncates",
         "the garbage oracle g : nat -> Z covers any stale bytes; the real allocator / numba NRT is exhibited by heap poisoning, not modelled",
         "scores are compared with tolerance 8*2^-24*(sum|terms|+1e-6); repetitions with a quarter of it (float32 results, fastmath)",
     ]
